@@ -1,5 +1,5 @@
 # replay of a bounded stand-in violation: re-run native/c01_backends.py
 import sys
-print("Coherent() | q[1] of 2 on fock: raised ValueError: einstein sum subscripts string included output subscript 'b' which never appeared in an input")
+print("MeasureHeterodyne(0.2, -0.3) | q[1] of 3 on gaussian: ('quad', 0, 0.0) = [0.0741, 0.7258], the documented action gives [0.0723, 0.7258]")
 print('REPLAY-VIOLATION')
 sys.exit(1)
